@@ -87,7 +87,7 @@ def scope_raw(f, rep):
         for s in segs:
             if s[0] == 'rep' and s[3] == (('opaque', ('a', 'children[i]')),): out.append(('raw', X, lenX))
             elif s[0] == 'pkglen':
-                out.append(('pkglen', rebuild(s[1], lambda x: lenX if (x[0] == 'call' and x[1] == 'replen') else None), s[2]))
+                out.append(('pkglen', rebuild(s[1], lambda x: lenX if (x[0] == 'Ssum') else None), s[2]))
             else: out.append(s)
         return out
     ok, why = segs_equal(result, absx(ref), facts)
@@ -133,7 +133,7 @@ def package_builder(f, rep):
         out = []
         for s in segs:
             if s[0] == 'rep' and s[3] == (('opaque', ('a', 'self.children[i]')),): out.append(('raw', X, lenX))
-            elif s[0] == 'pkglen': out.append(('pkglen', rebuild(s[1], lambda x: lenX if (x[0] == 'call' and x[1] == 'replen') else None), s[2]))
+            elif s[0] == 'pkglen': out.append(('pkglen', rebuild(s[1], lambda x: lenX if (x[0] == 'Ssum') else None), s[2]))
             elif s[0] == 'int': out.append(('int', subst(s[1], {('len', ('a', 'self.children')): nE}), s[2]))
             else: out.append(s)
         return out
